@@ -263,6 +263,10 @@ func runCase(c *Case) *Result {
 	return res
 }
 
+// Progress, if set, is called now and then during a long search inside one
+// case, so that the orchestrator's watchdog sees the worker is alive.
+var Progress func(n int)
+
 // InReference is true while a task's sequential reference is being computed.
 var InReference bool
 
@@ -312,6 +316,9 @@ func runPB1(c *Case, maxRuns int) (int, *Result) {
 					cc.Sched.Replay = []zzsim.Switch{{From: -1, To: t}, {From: t, Op: int32(o), Local: k, To: u}}
 					r := runCase(&cc)
 					n++
+					if n%200 == 0 && Progress != nil {
+						Progress(n)
+					}
 					if r.Verdict != "ok" {
 						r.Stats.Schedule = cc.Sched.Replay
 						return n, r
